@@ -376,6 +376,18 @@ func (k *conn) delta() (added map[string][]sut.MsgSnap, err error) {
 	return added, nil
 }
 
+// afterLines returns b without its first n LF-terminated lines.
+func afterLines(b []byte, n int) []byte {
+	for i := 0; i < n; i++ {
+		j := bytes.IndexByte(b, '\n')
+		if j < 0 {
+			return nil
+		}
+		b = b[j+1:]
+	}
+	return b
+}
+
 func describe(added map[string][]sut.MsgSnap) string {
 	var parts []string
 	for n, l := range added {
@@ -694,6 +706,13 @@ func (k *conn) followUp(r *fw.Rand, info map[string]any, after string) bool {
 	l := added[box]
 	if len(l) != 1 || !bytes.HasSuffix(normC([]byte(l[0].Source)), normC(small)) || len(added) != 1 {
 		k.fail("C06:followup-not-stored", fmt.Sprintf("after %s: follow-up message acknowledged 250, store delta is: %s", after, describe(added)), info)
+		return false
+	}
+	// No part of the refused message may be stored: behind the three trace-header lines
+	// (Return-Path, Received, its continuation) the stored copy is the follow-up message only.
+	if rest := afterLines(normC([]byte(l[0].Source)), 3); !bytes.Equal(rest, normC(small)) {
+		k.fail("C06:refused-bytes-in-later-message", fmt.Sprintf("after %s: the stored follow-up message has %d bytes behind the trace headers, %d were transmitted",
+			after, len(rest), len(normC(small))), info)
 		return false
 	}
 	c.Count("followups_stored", 1)
